@@ -194,8 +194,9 @@ func decideC18(c c18Case) ev.Verdict {
 				if looksLikeReport(so) {
 					return ev.Violation("c18-report-on-failure", "step %d: failure, yet stdout holds a report: %s", i, trunc(so, 300))
 				}
-				if !after.equal(before) {
-					return ev.Violation("c18-file-touched-on-failure", "step %d: validation failed (exit %d) but the output file changed", i, exit)
+				// the statement does not say the file must be untouched on failure, only that no report is produced
+				if !after.equal(before) && looksLikeReport(string(after.data)) {
+					return ev.Violation("c18-report-written-on-failure", "step %d: validation failed (exit %d) but a report was written to the output file", i, exit)
 				}
 				if lastOK {
 					failAfterSuccess = true
@@ -232,14 +233,10 @@ func decideC18(c c18Case) ev.Verdict {
 				continue
 			}
 			if exit != 0 {
-				// allowed only if the file is left unchanged (e.g. a path that cannot be written)
-				if !after.equal(before) {
-					return ev.Violation("c18-file-touched-on-failure", "step %d: acv exit %d and the output file changed", i, exit)
-				}
 				return ev.Violation("c18-nonzero-exit-on-success", "step %d: library succeeds but acv validate P D OUT exits %d: %s", i, exit, trunc(se, 300))
 			}
 			if looksLikeReport(so) {
-				return ev.Violation("c18-report-also-on-stdout", "step %d: report written to the file and also printed: %s", i, trunc(so, 200))
+				v.Obs = map[string]int{"report_also_printed_when_writing_to_file": 1} // not excluded by the statement: observation only
 			}
 			gotMasked, dates := maskDate(string(after.data))
 			if gotMasked != wantMasked {
